@@ -20,6 +20,7 @@ CORPUS = os.path.join(VERIF, "corpus")
 DRIVER = os.path.join(LEAN, ".lake", "build", "bin", "jmdriver")
 ALLOWED_AXIOMS = {"propext", "Classical.choice", "Quot.sound"}
 NCPU = os.cpu_count() or 4
+MAX_HANGS = 6
 
 ENV = dict(os.environ)
 ENV["CARGO_NET_OFFLINE"] = "true"
@@ -164,7 +165,13 @@ def run_exec(cmd, lines, idle_timeout=20.0, env=None, cwd=None):
     longer than idle_timeout to 'HANG'; the executor is restarted after the offending case."""
     results = [None] * len(lines)
     start = 0
+    hangs = 0
     while start < len(lines):
+        if hangs >= MAX_HANGS:
+            # an executor that keeps hanging would turn a check of seconds into one of hours: stop feeding it, mark the rest
+            for k in range(start, len(lines)):
+                results[k] = "HANG-SKIPPED"
+            break
         chunk = lines[start:]
         p = subprocess.Popen(cmd, stdin=subprocess.PIPE, stdout=subprocess.PIPE, stderr=subprocess.DEVNULL,
                              env=env or ENV, cwd=cwd)
@@ -193,6 +200,7 @@ def run_exec(cmd, lines, idle_timeout=20.0, env=None, cwd=None):
             except queue.Empty:
                 p.kill()
                 status = "HANG"
+                hangs += 1
                 break
             if item is None:
                 p.wait()
